@@ -21,6 +21,14 @@ var topicFuncs = map[string][]string{
 	"readonly": {"File.IsADV", "FileHeader.ImmediateDestinationField", "FileHeader.ImmediateOriginField", "EntryDetail.PaymentTypeField",
 		"EntryDetail.SetPaymentType"},
 	"reversal": {"File.Reversal"},
+	"dispatch": {"Reader.parseLine", "Reader.parseBH", "Reader.parseED", "Reader.parseEDAddenda", "Reader.parseFileHeader",
+		"Reader.parseBatchHeader", "Reader.parseEntryDetail", "Reader.parseAddenda", "Reader.parseADVAddenda", "Reader.parseBatchControl",
+		"Reader.parseFileControl", "Reader.parseIATBatchHeader", "Reader.parseIATEntryDetail", "Reader.parseIATAddenda",
+		"Reader.switchIATAddenda", "Reader.mandatoryOptionalIATAddenda", "Reader.nocIATAddenda", "Reader.returnIATAddenda",
+		"Reader.addCurrentBatch", "Reader.addIATCurrentBatch", "maybeValidate", "File.IsADV", "File.AddBatch", "File.AddIATBatch",
+		"NewIATBatch", "IATBatch.AddEntry", "IATBatch.GetEntries", "Batch.AddEntry", "Batch.AddADVEntry", "Batch.GetEntries",
+		"EntryDetail.AddAddenda05", "IATEntryDetail.AddAddenda17", "IATEntryDetail.AddAddenda18", "IsRefusedChangeCode",
+		"IsDishonoredReturnCode", "IsContestedReturnCode"},
 	"converters": {"converters.alphaField", "converters.numericField", "converters.stringField", "converters.parseNumField",
 		"converters.parseStringField", "converters.parseStringFieldWithOpts", "converters.leastSignificantDigits",
 		"validator.validateSimpleDate", "validator.validateSimpleTime", "validator.validateSettlementDate", "validator.isAlphanumeric",
